@@ -1109,8 +1109,46 @@ class PartialV:
         return ex.call(f, a, k2)
 
 
+class LoggerV:
+    """logging.Logger: calls have no effect on the state the contracts speak about (no handler is configured by the library)"""
+
+    def getattr_model(self, ex, name):
+        if name in ("debug", "info", "warning", "error", "critical", "exception", "log", "isEnabledFor", "setLevel"):
+            return LibFn("logger." + name, lambda ex2, *a, **k: (False if name == "isEnabledFor" else None))
+        raise OutOfSubset("logger attribute " + name)
+
+
 class SentinelV:
     """object(): a fresh value equal only to itself"""
+
+
+def b_allany(ex, it, is_all):
+    """builtin all / any over a concretely iterable sequence of (possibly symbolic) truth values"""
+    items = list(ex.iterate(it)) if not isinstance(it, (list, tuple)) else list(it)
+    terms = []
+    for x in items:
+        if isinstance(x, bool) or x is None or isinstance(x, (int, float, str, list, tuple, dict, set)):
+            bval = bool(x)
+            if is_all and not bval:
+                return False
+            if not is_all and bval:
+                return True
+            continue
+        if isinstance(x, T):
+            terms.append(x if x.sort == tm.B else tm.ne(x, tm.const(0)))
+            continue
+        raise OutOfSubset("all/any over non-scalar items")
+    if not terms:
+        return is_all
+    return tm.land(*terms) if is_all else tm.lor(*terms)
+
+
+def b_enumerate(ex, it, start=0):
+    st_ = tm.lift(num(start))
+    if tm.is_const(st_) and tm.cval(st_) == 0:
+        return EnumV(it)
+    # a non-zero start: only over concretely iterable sequences
+    return [(tm.add(st_, tm.const(i_)), v_) for i_, v_ in enumerate(ex.iterate(it))]
 
 
 def b_vars(ex, o):
@@ -1153,8 +1191,10 @@ BUILTINS = {
     "float": LibFn("float", b_float),
     "bool": LibFn("bool", lambda ex, v=False: (v if isinstance(v, bool) else (v if (isinstance(v, T) and v.sort == tm.B) else ex.truth(v)))),
     "int": LibFn("int", b_int),
-    "zip": LibFn("zip", lambda ex, *parts: zip_model(ex, parts)),
-    "enumerate": LibFn("enumerate", lambda ex, it: EnumV(it)),
+    "zip": LibFn("zip", lambda ex, *parts, strict=False: zip_model(ex, parts)),
+    "all": LibFn("all", lambda ex, it: b_allany(ex, it, True)),
+    "any": LibFn("any", lambda ex, it: b_allany(ex, it, False)),
+    "enumerate": LibFn("enumerate", lambda ex, it, start=0: b_enumerate(ex, it, start)),
     "list": LibFn("list", lambda ex, it=(): it if isinstance(it, (MapList, ZipArr)) else list(ex.iterate(it))),
     "tuple": LibFn("tuple", lambda ex, it=(): tuple(ex.iterate(it))),
     "set": LibFn("set", lambda ex, it=(): set(it.cols.keys()) if isinstance(it, TableV) else set(ex.iterate(it))),
@@ -1316,6 +1356,13 @@ def np_full_like(ex, proto, fill, dtype=None):
     v = tm.lift(num(fill))
     v = tm.trunc(v) if dt in INT_RANGE else tm.toreal(v)
     return ArrV(proto.shape, lambda idx: v, dt)
+
+
+def np_zeros_like(ex, proto, dtype=None):
+    proto = as_array(ex, proto)
+    if isinstance(proto, T):
+        return tm.const(0) if proto.sort == tm.I else tm.rconst(0)
+    return np_full_like(ex, proto, tm.const(0), dtype)
 
 
 def np_ones_like(ex, proto):
@@ -2014,6 +2061,7 @@ for _mod in ("numpy",):
     _reg(_mod + ".empty_like", np_empty_like)
     _reg(_mod + ".full_like", np_full_like)
     _reg(_mod + ".ones_like", np_ones_like)
+    _reg(_mod + ".zeros_like", np_zeros_like)
     _reg(_mod + ".full", np_full)
     _reg(_mod + ".linspace", np_linspace)
     _reg(_mod + ".arange", np_arange)
@@ -2044,6 +2092,9 @@ _reg("math.exp", lambda ex, x: tm.exp(tm.lift(num(x))))
 _reg("math.log", lambda ex, x: Arith(ex).log(tm.lift(num(x))))
 _reg("math.sqrt", lambda ex, x: Arith(ex).sqrt(tm.lift(num(x))))
 _reg("math.fabs", lambda ex, x: tm.absv(tm.toreal(tm.lift(num(x)))))
+for _lv in ("debug", "info", "warning", "error", "critical", "exception", "log"):
+    pass
+_reg("logging.getLogger", lambda ex, *a, **k: LoggerV())
 _reg("functools.partial", lambda ex, f, *a, **k: PartialV(f, a, k))
 _reg("copy.copy", copy_copy)
 _reg("copy.deepcopy", copy_deepcopy)
